@@ -47,6 +47,12 @@ _Ret = TypeVar('_Ret')
 _log = logging.getLogger(__name__)
 
 
+class _LineTooLong(Exception):
+    # The line exceeded the stream limit and part of it has been discarded,
+    # so the stream cannot be resynchronized.
+    pass
+
+
 class IMAPService(ServiceInterface):  # pragma: no cover
     """A pymap service implementing an IMAP server."""
 
@@ -171,8 +177,14 @@ class IMAPConnection:
     def _exec(self, future: Awaitable[_Ret]) -> Awaitable[_Ret]:
         return subsystem.get().execute(future)
 
+    async def _readline(self) -> bytes:
+        try:
+            return await self.reader.readline()
+        except ValueError as exc:
+            raise _LineTooLong() from exc
+
     async def readline(self) -> memoryview:
-        line = await self.reader.readline()
+        line = await self._readline()
         buf = bytearray(line)
         while True:
             if not line.endswith(b'\n'):
@@ -189,7 +201,7 @@ class IMAPConnection:
                 literal_length = None
             if literal_length is not None:
                 buf += await self.reader.readexactly(literal_length)
-                line = await self.reader.readline()
+                line = await self._readline()
                 buf += line
             else:
                 self._print('%s -->| %s', buf)
@@ -370,6 +382,9 @@ class IMAPConnection:
                 cmd = await self.read_command(state)
             except (ConnectionError, EOFError):
                 break
+            except _LineTooLong:
+                await self.write_response(ResponseBye(b'Line too long.'))
+                break
             except CancelledError:
                 await self.send_error_disconnect()
                 break
@@ -410,6 +425,9 @@ class IMAPConnection:
                     resp = ResponseNo(cmd.tag, b'Operation timed out.',
                                       ResponseCode.of(b'TIMEOUT'))
                     await self.write_response(resp)
+                except _LineTooLong:
+                    await self.write_response(ResponseBye(b'Line too long.'))
+                    break
                 except (CancelledError, ConnectionError, EOFError):
                     await self.send_error_disconnect()
                     break
